@@ -259,6 +259,13 @@ var c18Tags = []c18Tag{
 	{"name-dollar-ref", func(string) string { return `json:"$ref"` }, false},
 	{"name-properties", func(string) string { return `json:"properties"` }, false},
 	{"name-unicode", func(string) string { return `json:"é"` }, false},
+	// member names that mean something in the JSON-RPC envelope the schema travels in
+	{"name-error", func(string) string { return `json:"error"` }, false},
+	{"name-result", func(string) string { return `json:"result,omitempty"` }, false},
+	{"name-jsonrpc", func(string) string { return `json:"jsonrpc"` }, false},
+	{"name-method", func(string) string { return `json:"method"` }, false},
+	{"name-id", func(string) string { return `json:"id"` }, false},
+	{"name-params", func(string) string { return `json:"params"` }, false},
 	{"schema-required-desc", func(string) string { return `json:"f" jsonschema:"required,description=a, b and c"` }, false},
 	{"schema-desc-semicolon", func(string) string { return `json:"f,omitempty" jsonschema:"description=d;title=t"` }, false},
 	{"schema-constraints", func(leaf string) string {
